@@ -60,6 +60,11 @@ pub struct Outcome {
     pub trace_hash: u64,
     /// Number of system executions this case performed (>= 1).
     pub executions: u64,
+    /// With a violation: an equivalent, fully explicit form of the case (same type, as JSON) that
+    /// reproduces this execution without re-drawing anything (e.g. the recorded schedule instead of a
+    /// scheduler seed). It replaces the case in reports, so that the master process never has to execute
+    /// the system under test itself to obtain it.
+    pub explicit_case: Option<Value>,
 }
 
 /// Per-worker accumulator for fault-fire counts and reach probes.
@@ -331,11 +336,12 @@ fn worker<E: Engine>(args: &Args) -> i32 {
             delta.samples.push(json!({"case_index": index, "case": engine.sample(&case)}));
             samples_emitted += 1;
         }
+        let explicit_case = out.explicit_case;
         if let Some(v) = out.violation {
             let c = seen_keys.entry(v.key.clone()).or_insert(0);
             *c += 1;
             if *c <= 1 && seen_keys.len() <= 40 {
-                let wv = WorkerViolation { tag: own_build_tag(), index, case_seed: cs, case: serde_json::to_value(&case).unwrap(), violation: v };
+                let wv = WorkerViolation { tag: own_build_tag(), index, case_seed: cs, case: explicit_case.unwrap_or_else(|| serde_json::to_value(&case).unwrap()), violation: v };
                 let mut o = stdout.lock();
                 let _ = writeln!(o, "V {}", serde_json::to_string(&wv).unwrap());
                 let _ = o.flush();
